@@ -419,12 +419,14 @@ func c09(r *core.Run) {
 	}
 	dispF := map[string]bool{}
 	if m := c04Models(r, "S5")["Request"]; m != nil {
-		for _, d := range dispatcherOf(p, m) {
-			for _, b := range d.Blocks {
-				for _, in := range b.Instrs {
-					if u, ok := in.(*ssa.UnOp); ok {
-						if f, ok := core.LoadedField(u); ok && f.Struct == "Handler" {
-							dispF[f.Name] = true
+		for _, d0 := range dispatcherOf(p, m) {
+			for _, d := range p.Helpers(d0) {
+				for _, b := range d.Blocks {
+					for _, in := range b.Instrs {
+						if u, ok := in.(*ssa.UnOp); ok {
+							if f, ok := core.LoadedField(u); ok && f.Struct == "Handler" {
+								dispF[f.Name] = true
+							}
 						}
 					}
 				}
